@@ -123,3 +123,23 @@ def r18_4(ctx):
         f_, paths = explore_send_packet(ctx, "Group", (dst, "OK"), None)
         retried = any(len(sends(p)) >= 2 and sends(p)[0].extra[0].name == dst for p in paths)
         ctx.require(retried, f"busy:{src}", f"{fam}.{src} normalises to {dst}, which send_packet does not retry on", func=app)
+
+
+@rule("R18.5", ["C18"], "T-WMW", floor=1)
+def r18_5(ctx):
+    """The normalisation table is fixed once its module is imported: no function anywhere in the package stores
+    into, deletes from or calls a mutating method on SL_STATUS_MAP (a per-version or per-session adjustment of the shared
+    table would change conversions for every later session in the process), and the name is not rebound."""
+    from ..idx import index
+
+    repo = ctx.repo
+    ws = index(repo).writers("SL_STATUS_MAP")
+    for g, n, kind in ws:
+        ctx.violation(f"SL_STATUS_MAP:mutated:{g.short}", f"{g.short} modifies the shared normalisation table SL_STATUS_MAP ({kind}, line {n.lineno})", func=g, node=n)
+    import ast as _ast
+
+    for g in repo.all_functions():
+        for n in _ast.walk(g.node):
+            if isinstance(n, _ast.Global) and "SL_STATUS_MAP" in n.names:
+                ctx.violation(f"SL_STATUS_MAP:rebound:{g.short}", f"{g.short} declares SL_STATUS_MAP global (rebinds the table)", func=g, node=n)
+    ctx.ok(1, "no-writers")
